@@ -126,6 +126,10 @@ def run(ck, models, tier):
         from .c17 import flush_obligations
         k6 = flush_obligations(ck, tm, ("R2.6", "R2.6"), install=False, restore=True)
         ck.floor("R2.6", "restoring-writes-checked-for-flush", k6, 1, tm.target)
+        # ---------------- R2.7 the restoring write cannot fault: on its own path it is preceded by a protection change that covers it (C01 R1.3
+        # on the destructor) - otherwise the process dies in the destructor and nothing is restored
+        k7 = write_protection_obligations(ck, tm, g, "R2.7", install=False, restore=True)
+        ck.floor("R2.7", "restoring-writes-checked-for-protection", k7, 1, tm.target)
         # ---------------- R2.3 LIFO
         inj, field, idx, kind = injector_adt(tm, g.adt)
         ck.ob("R2.3", "injector-container", tm.target, inj is not None, "guards are kept in %s.%s : %s<%s>" % (inj, field, kind, short(g.adt or "?")))
